@@ -134,6 +134,17 @@ def run(tier):
                 return int(a[2:]) + 3
         return 3
     hb.run_priorities(nthr, cells=[c for c in hb.cells if nthr(c) <= (5 if quick else 6) and c.leg != 'hb:garbage-alignment'])
+    if not quick:
+        # the race oracle under priority-change points, on the streams that stress the speculative paths (C11)
+        from checks import C11
+        s_stale, s_junk = C11.spec_shapes()
+        hbp = sched.Explorer(chk, par=4, jobs=4, scratch=hb.dir)
+        hbp.add('hb:priority-change', 'hbrace', ['-n3', '-d'], s_junk, oracle_hb, '20+60 spurious headers W=3 in64',
+                {'setenv': {'LBZIP2_VERIF_IN_GRANUL': '64'}, 'nprio': 6, 'demote': 1}, policies='prio:6')
+        hbp.add('hb:priority-change', 'hbrace', ['-n3', '-d'], s_stale, oracle_hb, 'carrier(3 planted blocks)+small+60-buffer block W=3 in64/out40',
+                {'setenv': {'LBZIP2_VERIF_IN_GRANUL': '64', 'LBZIP2_VERIF_OUT_GRANUL': '40'}, 'nprio': 6, 'demote': 1}, policies='prio:6')
+        hbp.run_pass(1, time_limit=400)
+        hbp.finish_cov('')
     hb_done = -1
     for d in range(1, (2 if quick else 3) + 1):
         sel = hb.cells
